@@ -1,6 +1,6 @@
 #!/bin/bash
 # run_all.sh [tier] : every registered check once, summary lines only
-cd /verif; tier=${1:-quick}
+cd "$(dirname "$0")/.."; tier=${1:-quick}
 for p in $(python3 -c "import json;print(' '.join(c['property_id'] for c in json.load(open('MANIFEST.json'))['checks']))"); do
   out=$(./check $p $tier 2>&1); rc=$?
   echo "rc=$rc $(echo "$out" | tail -1)"
